@@ -713,6 +713,29 @@ pub fn gen_project(r: &mut Rng, knobs: Knobs, size: (usize, usize, usize)) -> Js
     json!({"knobs": knobs.to_json(), "pous": pous, "config": config})
 }
 
+/// `n` self-contained units (enum, struct, alias, interface, class, function, FB with a method, reference)
+/// plus one program instantiating them: many keys for every table of the compiler and the encoder.
+pub fn gen_bulk(r: &mut Rng, n: usize) -> Json {
+    let mut units = vec![];
+    let mut order: Vec<usize> = (0..n).collect();
+    r.shuffle(&mut order);
+    for &i in &order {
+        let k = r.range(1, 9);
+        let unit = format!(
+            "TYPE E{i} : (Ea{i}, Eb{i}, Ec{i}); END_TYPE\nTYPE S{i} : STRUCT a : DINT; b : E{i}; c : ARRAY[0..2] OF INT; END_STRUCT END_TYPE\nTYPE Al{i} : DINT; END_TYPE\n\n\
+INTERFACE I{i}\nMETHOD M{i} : DINT\nVAR_INPUT a : DINT; END_VAR\nEND_METHOD\nEND_INTERFACE\n\n\
+CLASS C{i} IMPLEMENTS I{i}\nVAR v : DINT; END_VAR\nMETHOD PUBLIC M{i} : DINT\nVAR_INPUT a : DINT; END_VAR\nv := (v + a) MOD 1000;\nM{i} := v;\nEND_METHOD\nEND_CLASS\n\n\
+FUNCTION G{i} : DINT\nVAR_INPUT a : DINT; END_VAR\nG{i} := (a MOD 100) + {k};\nEND_FUNCTION\n\n\
+FUNCTION_BLOCK B{i}\nVAR_INPUT x : DINT; END_VAR\nVAR_OUTPUT y : DINT; END_VAR\nVAR s : S{i}; c : C{i}; al : Al{i}; r : REF_TO DINT; END_VAR\n\
+METHOD PUBLIC Adv : DINT\nVAR_INPUT k : DINT; END_VAR\ns.a := (s.a + k) MOD 1000;\nAdv := s.a;\nEND_METHOD\n\
+al := G{i}(x);\nr := REF(al);\ny := c.M{i}(x) + THIS.Adv(al) + r^;\n\
+IF s.b = E{i}#Ea{i} THEN s.b := E{i}#Eb{i}; ELSE s.b := E{i}#Ea{i}; END_IF;\nEND_FUNCTION_BLOCK\n"
+        );
+        units.push(json!({"id": i, "text": unit, "var": format!("  b{i} : B{i};\n"), "stmt": format!("b{i}(x := t);\nt := (t + b{i}.y) MOD 1000;\n")}));
+    }
+    Json::Array(units)
+}
+
 pub const PRELUDE: &str = "TYPE Color : (Red, Green, Blue); END_TYPE\nTYPE Pt : STRUCT x : DINT; y : REAL; b : BOOL; END_STRUCT END_TYPE\n\n";
 
 pub fn render(project: &Json) -> String {
@@ -726,13 +749,51 @@ pub fn render(project: &Json) -> String {
         s.push_str(p["footer"].as_str().unwrap_or(""));
         s.push('\n');
     }
-    s.push_str(project["config"].as_str().unwrap_or(""));
+    let bulk = project["bulk"].as_array().cloned().unwrap_or_default();
+    if !bulk.is_empty() {
+        for u in &bulk {
+            s.push_str(u["text"].as_str().unwrap_or(""));
+            s.push('\n');
+        }
+        s.push_str("PROGRAM Bulk\nVAR\n  t : DINT;\n");
+        for u in &bulk {
+            s.push_str(u["var"].as_str().unwrap_or(""));
+        }
+        s.push_str("END_VAR\n");
+        for u in &bulk {
+            s.push_str(u["stmt"].as_str().unwrap_or(""));
+        }
+        s.push_str("END_PROGRAM\n\n");
+        let config = project["config"].as_str().unwrap_or("");
+        s.push_str(&config.replace("END_CONFIGURATION", "PROGRAM PBulk WITH TA : Bulk;\nEND_CONFIGURATION"));
+    } else {
+        s.push_str(project["config"].as_str().unwrap_or(""));
+    }
     s
 }
 
 /// shrink candidates for a project: drop chunks of statements per POU, then single statements
 pub fn shrink_project(project: &Json) -> Vec<Json> {
     let mut out = vec![];
+    if let Some(bulk) = project["bulk"].as_array() {
+        let n = bulk.len();
+        let mut chunk = n;
+        while chunk >= 1 && n > 0 {
+            let mut start = 0;
+            while start < n {
+                let mut reduced = bulk.clone();
+                reduced.drain(start..(start + chunk).min(n));
+                let mut np = project.clone();
+                np["bulk"] = Json::Array(reduced);
+                out.push(np);
+                start += chunk;
+            }
+            if chunk == 1 {
+                break;
+            }
+            chunk /= 2;
+        }
+    }
     let pous = project["pous"].as_array().cloned().unwrap_or_default();
     for (pi, p) in pous.iter().enumerate() {
         let stmts = p["stmts"].as_array().cloned().unwrap_or_default();
